@@ -410,6 +410,7 @@ package inprocgrpc
 //
 //@ func (*Channel).RegisterService
 //@   requires desc != nil
+//@   on_panic ensures[C15] a_refused_registration_leaves_earlier_ones_intact: old(c.handlers) != nil ==> c.handlers == old(c.handlers) && (forall k string :: has(c.handlers, k) == old(has(c.handlers, k)) && c.handlers[k] == old(c.handlers[k]))
 //@   ensures[C15,C12] registered_in_the_channels_own_registry_once: calls("(grpchan.HandlerMap).RegisterService") == 1 && c.handlers != nil
 //@   assert_call[C15,C12] (grpchan.HandlerMap).RegisterService : arg0 == c.handlers && arg1 == desc && arg2 == svr && c.handlers != nil
 //@   modifies c.handlers, maps("grpchan.HandlerMap")
